@@ -5,8 +5,21 @@ metric sequences (on the grid k/8 < 100: exact in binary and in the 5-digit scie
 format of the history file), the user entries with their per-epoch values.
 """
 import math
+import os
+import tempfile
 
 from ..oracles import c15_controller as ref
+
+
+def scratch_dir(prefix):
+    """Per-case scratch directory: $TMPDIR if set, else the tmpfs /dev/shm when writable (thousands
+    of tiny create/rename/unlink operations per case; a journalled disk shared with other checks
+    makes them the bottleneck), else the default temp dir.  Process-death semantics (what another
+    reader sees is what survives) are the same on all of them."""
+    base = os.environ.get("TMPDIR") or None
+    if base is None and os.path.isdir("/dev/shm") and os.access("/dev/shm", os.W_OK | os.X_OK):
+        base = "/dev/shm"
+    return tempfile.mkdtemp(prefix=prefix, dir=base)
 
 THRESHOLDS = [0.0, 0.125, 0.25, 0.5, 1.0, 2.0]
 EXACT_FACTORS = [0.5, 0.1, 0.2]
@@ -130,9 +143,9 @@ def gen_entries(rng, n):
     return out
 
 
-def gen_history(rng, n_max, exact_lr=True, shape=None, force=None):
+def gen_history(rng, n_max, exact_lr=True, shape=None, force=None, want_general=False):
     """A configuration + metric history of at most n_max epochs (shorter if the reference stops)."""
-    for _ in range(200):
+    for _ in range(2000):
         cfg = gen_cfg(rng, exact_lr, n_max)
         if force:
             cfg.update(force)
@@ -140,7 +153,7 @@ def gen_history(rng, n_max, exact_lr=True, shape=None, force=None):
         thr = rng.choice([cfg["es_threshold"], cfg["rlr_threshold"]])
         val = gen_metrics(rng, sh, n_max, thr)
         cls = lr_class(cfg, val)
-        if cls is None or (exact_lr and cls != "exact"):
+        if cls is None or (exact_lr and cls != "exact") or (want_general and cls != "general"):
             continue
         train = [grid(rng) for _ in range(n_max)]
         return {"cfg": cfg, "val": val, "train": train, "shape": sh, "lr_class": cls,
